@@ -26,6 +26,13 @@ Theorem C01_record : forall e, le_ok e -> marshal_into (writable_size e) e = mar
 Proof. intros e H. split; [exact (marshal_into_ok e H)|exact (writable_size_ok e H)]. Qed.
 Print Assumptions C01_record.
 
+(* Marshal into a buffer that is too small (any size): the buffer receives a prefix of the encoding - the parts that fit -
+   and the rest stays untouched; nothing else is ever written *)
+Theorem C01_record_short : forall sz e, exists k, (k <= sz)%nat /\ (k <= length (marshal_le e))%nat /\
+  marshal_into sz e = firstn k (marshal_le e) ++ repeat x00 (sz - k).
+Proof. exact marshal_into_short. Qed.
+Print Assumptions C01_record_short.
+
 (* LogEvent codec: Unmarshal gives the event back whatever the reused struct [prev] held before (Fields is reset
    when the record carries none) *)
 Theorem C01_codec : forall prev e, le_ok e -> unmarshal_le prev (marshal_le e) = Ok e.
